@@ -289,12 +289,15 @@ def extract(unit, ex):
             fstart = o
             info["anchor"] = "block:%s/loop-body[%d]" % (ex["within"], ex["loop"])
         elif "stmts_from" in ex:
-            p = pat(ex["stmts_from"])
-            occ = find_all_seq(toks, p, bo, bc)
-            if len(occ) <= ex.get("nth", 0): raise ExtractError("anchor lost: %r in %s" % (ex["stmts_from"], ex["within"]))
-            o = occ[ex.get("nth", 0)]
-            # back to statement start
-            while toks[o - 1].s not in (";", "{", "}"): o -= 1
+            if ex["stmts_from"] == "@start":
+                o = bo + 1          # from the first statement of the function body
+            else:
+                p = pat(ex["stmts_from"])
+                occ = find_all_seq(toks, p, bo, bc)
+                if len(occ) <= ex.get("nth", 0): raise ExtractError("anchor lost: %r in %s" % (ex["stmts_from"], ex["within"]))
+                o = occ[ex.get("nth", 0)]
+                # back to statement start
+                while toks[o - 1].s not in (";", "{", "}"): o -= 1
             end = bc
             if "stmts_to" in ex:
                 p2 = pat(ex["stmts_to"])
@@ -322,7 +325,8 @@ def extract(unit, ex):
         fv = R.free_vars(frag, cands)
         info["free"] = fv
         want = ex.get("free")
-        if want is not None and sorted(want) != sorted(fv):
+        # a variable the fragment no longer uses is harmless (the generated function keeps the parameter); a new one is outside the contract
+        if want is not None and not set(fv) <= set(want):
             raise ExtractError("fragment %s: free variables changed: expected %s, found %s" % (info["anchor"], sorted(want), sorted(fv)))
     else:
         raise ExtractError("unknown extraction kind %r" % kind)
@@ -333,13 +337,13 @@ def extract(unit, ex):
     cfg = dict(unit.get("rules", {}))
     cfg.update(ex.get("rules", {}))
     if kind != "type":
-        frag = R.r2_trace(frag, st)
+        frag = R.r2_trace(frag, st, tuple(cfg.get("drop_macros", ())))
         frag = R.r4_macro(frag, st)
-        frag = R.r2_trace(frag, st)
+        frag = R.r2_trace(frag, st, tuple(cfg.get("drop_macros", ())))
         for a, b in cfg.get("await_subst", []):
             # an `.await` that stands for an environment interaction is redirected before R1 drops the remaining awaits
             frag = R.r8_subst(frag, st, [(a, b)], "R8a")
-        frag = R.r1_await(frag, st)
+        frag = R.r1_await(frag, st, mark=bool(cfg.get("await_mark")))
         for a, b in cfg.get("pre_subst", []):
             frag = R.r8_subst(frag, st, [(a, b)], "R8p")
         if cfg.get("outline"):
@@ -601,6 +605,16 @@ def build_unit(name, canary=None):
         if ov["guard"] is not None:
             if ex.get("guard") is None or pat(ex["guard"]) != pat(ov["guard"]):
                 raise ExtractError("item %s: guard mismatch" % iid)
+        if "loop_isolation(false)" in hdr:
+            # Verus neither checks nor assumes the `ensures` of a non-isolated loop: an obligation placed there would count as discharged unchecked
+            for k, (it, text) in ov["loops"].items():
+                inens = False
+                for ln in text.split("\n"):
+                    t = ln.strip()
+                    if t.startswith("ensures"): inens = True
+                    elif t.startswith(("invariant", "decreases", "after:", "body_start:", "body_end:")): inens = False
+                    if inens and "OBL:" in ln:
+                        raise ExtractError("item %s loop %d: tagged obligation inside the `ensures` of a non-isolated loop (unchecked by Verus): move it to an `after:` assert" % (iid, k))
         frag = splice_closures(frag, ov, info)
         frag = splice_loops(frag, ov, info)
         frag = splice_hints(frag, ov, info)
